@@ -641,3 +641,4 @@ add("s-model-increase-test-in-a-local", S, ["C04"], "dfols/controller.py", "    
     "        model_increase = pred_reduction < 0.0\n        if model_increase:\n            if len(self.model.projections) > 1:")
 add("s-max-npt-read-into-a-local", S, ["C18", "C07"], "dfols/solver.py", "            npt += params(\"restarts.increase_npt_amt\")\n            npt = min(npt, params(\"restarts.max_npt\"))\n",
     "            max_npt = params(\"restarts.max_npt\")\n            npt += params(\"restarts.increase_npt_amt\")\n            npt = min(npt, max_npt)\n")
+add("last-successful-run-off-by-one", F, ["C10"], "dfols/controller.py", "            self.last_successful_run = nruns_so_far\n", "            self.last_successful_run = nruns_so_far - 1\n", "C10-4b")
